@@ -35,7 +35,8 @@ class Finding:
 
 
 class Rule:
-    def __init__(self, ctx, rule_id, title, min_instances=1):
+    def __init__(self, ctx, rule_id, title, min_instances=1, detached=False):
+        self.detached = detached
         self.ctx = ctx
         self.id = rule_id
         self.title = title
@@ -56,7 +57,8 @@ class Rule:
         self.obligations += 1
         self.instances.append({"construct": construct, "verdict": "VIOLATION", "detail": message, "where": where})
         f = Finding(self.ctx.prop, self.id, construct, message, where, witness)
-        self.ctx.findings.append(f)
+        if not self.detached:
+            self.ctx.findings.append(f)
         return f
 
     def check(self, cond, construct, ok_detail, bad_message, where="", witness=None):
@@ -86,6 +88,35 @@ class Ctx:
 
     def note(self, text):
         self.notes.append(text)
+
+    def structural_or_witness(self, r, structural_fn, witness_fn, label):
+        """Run a structural rule; if it does not recognise the code, let branch-covering witness evaluation decide.
+
+        witness_fn() -> (n_ok, [difference messages], unsupported message|None)."""
+        tmp = Rule(self, r.id, r.title, detached=True)
+        structural_fn(self, tmp)
+        bad = [i for i in tmp.instances if i["verdict"] == "VIOLATION"]
+        if not bad:
+            for i in tmp.instances:
+                (r.ok if i["verdict"] == "ok" else r.info)(i["construct"], i["detail"], i["where"])
+            return
+        n_ok, diffs, unsupported = witness_fn()
+        if unsupported is None and not diffs:
+            for i in tmp.instances:
+                if i["verdict"] == "ok":
+                    r.ok(i["construct"], i["detail"], i["where"])
+            r.ok(f"{label}::witnesses", f"code shape not recognised by the structural rule ({bad[0]['detail'][:70]}...); decided by {n_ok} branch-covering witness "
+                 "evaluations, all as the property prescribes", bad[0]["where"])
+            return
+        for i in tmp.instances:
+            if i["verdict"] == "ok":
+                r.ok(i["construct"], i["detail"], i["where"])
+        if diffs:
+            for d in diffs[:3]:
+                r.violation(f"{label}::witness", d + f" [structural rule: {bad[0]['detail'][:160]}]", bad[0]["where"])
+        else:
+            for i in bad:
+                r.violation(i["construct"], i["detail"] + f" [witness evaluation not possible: {unsupported}]", i["where"])
 
 
 # --------------------------------------------------------------------------- known findings
